@@ -21,12 +21,14 @@ Ev == Log[l]
 AsSeq(x) == IF DOMAIN x = {} THEN <<>> ELSE x
 AsSet(x) == IF DOMAIN x = {} THEN {} ELSE Range(x)
 HdrSubj(e) == [a \in Arts |-> CASE a = "a1" -> e.sa1 [] a = "a2" -> e.sa2 [] OTHER -> e.sa3]
+\* header field na: the artifacts without annotations (absent in logs of older drivers)
+HdrNa(e) == IF "na" \in DOMAIN e THEN AsSet(e.na) ELSE {}
 TInit == PInit /\ l = 1 /\ tid = ""
 TNext ==
   /\ l <= Len(Log)
   /\ l' = l + 1
   /\ tid' = IF Ev.ev = "reset" THEN Ev.trace ELSE tid
-  /\ \/ Ev.ev = "reset" /\ PReset(Ev.mode, HdrSubj(Ev))
+  /\ \/ Ev.ev = "reset" /\ PReset(Ev.mode, HdrSubj(Ev), HdrNa(Ev))
      \/ Ev.ev = "call" /\ PCall(Ev.id, Ev.k, Ev.a)
      \/ Ev.ev = "ret" /\ PRet(Ev.id, Ev.res)
      \/ Ev.ev = "stored" /\ PStored(AsSet(Ev.set))
@@ -41,7 +43,7 @@ TNextAll ==
   IF bad # ""
   THEN /\ PrintT(<<"REJ", tid, l - 1, bad>>)
        /\ bad' = ""
-       /\ UNCHANGED <<subj, mode, pend, poss, cur, quiet, l, tid>>
+       /\ UNCHANGED <<subj, mode, na, pend, poss, cur, quiet, l, tid>>
   ELSE TNext
 TSpecAll == TInit /\ [][TNextAll]_<<pvars, l, tid>>
 HW == TLCSet(1, IF TLCGet(1) > l THEN TLCGet(1) ELSE l)
